@@ -419,6 +419,8 @@ alloc_done:
             default: { static char extbuf[64]; TRY(cstl_array_set(st, extbuf, 4, 4)); break; }
             }
             PROBE("c20_stray_call");
+            { char pn[96]; snprintf(pn, sizeof pn, "c20:%s", g_cur_ctx); probe_dyn(pn); }
+            g_run.nontrivial = 1;
             if (!g_aborted)
                 VIOL("stray_not_caught", "%s through a bitwise %s of an array object (%s) returned instead of aborting", fnames[fn], relocate ? "relocation" : "copy", state);
             check_no_release(b, fnames[fn]);
